@@ -57,45 +57,57 @@ theorem C04_schedule_collective_outside_core (ops : Ops α B) (law : Law ops) (e
     ∀ g ∈ w'.gcs, -g.curMax ≤ g.currentLoad ∧ g.currentLoad ≤ g.curMax :=
   step_collective_outside_within ops law env heps hc hout w w' st st' cmds h0 h
 
-/-- **schedule (collective) inside the core standing time — partial (repaired code: fixes/SCH2.diff,
-fixes/SCH3.diff).**  For any battery obeying `Sched.Law`, a world with one connector (asserted by the
-class for this sub-strategy) in which no vehicle is V2G-capable: `Schedule.step` inside the core
+/-- **schedule (collective) never breaks the connector limit inside the core standing time** (code
+repaired by fixes/SCH2.diff, SCH3.diff, SCH4.diff).  For any battery obeying `Sched.Law` and a world
+with one connector (asserted by the class for this sub-strategy): `Schedule.step` inside the core
 standing time — with or without the evaluation at its first step, excess branch or on-schedule branch
-with its retry loop, whatever target, schedule and battery reserve — keeps the connector within
-`± cur_max_power`.  The hypotheses of the earlier version that the repairs make unnecessary are gone:
-"(1) the on-schedule branch is taken" (SCH2: the excess branch now searches below the connector
-headroom) and "(2) target + battery reserve ≤ limit" (SCH3: the power handed out on schedule is
-`min(target − load + battery support, cur_max_power − load)`).
-Still excluded, exactly: V2G-capable vehicles — in a discharge window the V2G pass lets a vehicle feed
-in up to `|target − load|`, which is not compared with `−cur_max_power` (feed-in direction only, see
-`C04_schedule_collective_core_draw_partial` for the draw direction). -/
-theorem C04_schedule_collective_core_partial (ops : Ops α B) (law : Law ops) (env : Env α)
-    (heps : 0 ≤ env.eps) (hc : env.collective = true)
-    (hin : dtWithinCoreStandingTime env.now env.cst = .ok true)
-    (w w' : SWorld α B) (st st' : CState α) (cmds : List (String × α)) (g0 : GcS α)
-    (hg : w.gcs = [g0]) (hn : ∀ v ∈ w.vehicles, v.v2g = false)
-    (h0 : ∀ g ∈ w.gcs, -g.curMax ≤ g.currentLoad ∧ g.currentLoad ≤ g.curMax)
-    (h : step ops env w st = .ok (w', st', cmds)) :
-    ∀ g ∈ w'.gcs, -g.curMax ≤ g.currentLoad ∧ g.currentLoad ≤ g.curMax :=
-  (step_collective_core ops law env heps hc hin true w w' st st' cmds g0 hg (fun _ => hn) h0 h).2 rfl
-
-/-- **schedule (collective) inside the core standing time, draw direction, V2G allowed — partial
-(repaired code).**  One connector, nothing else assumed: with any vehicles (V2G-capable or not), any
-branch, any target and battery reserve, the connector's load does not exceed `cur_max_power` after the
-step (the V2G pass charges at most `min(target, cur_max_power) − load` and its discharge only lowers
-the load).  Together with `C04_schedule_individual_limit` and `C04_schedule_collective_outside_core`:
-on the repaired code `schedule` never exceeds the connector limit in the draw direction.
-Still excluded, exactly: the feed-in bound `−cur_max_power ≤ load` inside the core standing time when a
-V2G-capable vehicle is present. -/
-theorem C04_schedule_collective_core_draw_partial (ops : Ops α B) (law : Law ops) (env : Env α)
+with its retry loop, the V2G pass with any number of V2G-capable vehicles in charge and discharge
+windows, then the battery pass; whatever target, schedule, forecast and battery reserve — keeps the
+connector within `± cur_max_power`.  This replaces the former `…_core_partial` and
+`…_core_draw_partial`: their last exclusion (feed-in by the V2G pass, mechanism C) is closed by SCH4,
+which bounds a discharge window by `min(|target − load|, cur_max_power + load)`. -/
+theorem C04_schedule_collective_core_limit (ops : Ops α B) (law : Law ops) (env : Env α)
     (heps : 0 ≤ env.eps) (hc : env.collective = true)
     (hin : dtWithinCoreStandingTime env.now env.cst = .ok true)
     (w w' : SWorld α B) (st st' : CState α) (cmds : List (String × α)) (g0 : GcS α)
     (hg : w.gcs = [g0])
     (h0 : ∀ g ∈ w.gcs, -g.curMax ≤ g.currentLoad ∧ g.currentLoad ≤ g.curMax)
     (h : step ops env w st = .ok (w', st', cmds)) :
-    ∀ g ∈ w'.gcs, g.currentLoad ≤ g.curMax :=
-  (step_collective_core ops law env heps hc hin false w w' st st' cmds g0 hg (fun hb => by cases hb) h0 h).1
+    ∀ g ∈ w'.gcs, -g.curMax ≤ g.currentLoad ∧ g.currentLoad ≤ g.curMax :=
+  step_collective_core_full ops law env heps hc hin w w' st st' cmds g0 hg h0 h
+
+/-- **schedule (collective) never breaks the connector limit** — at any time, in either direction
+(repaired code, one connector): the union of `C04_schedule_collective_outside_core` and
+`C04_schedule_collective_core_limit`.  With `C04_schedule_individual_limit` this is the second
+sentence of C04 for the strategy `schedule` in both sub-strategies. -/
+theorem C04_schedule_collective_limit (ops : Ops α B) (law : Law ops) (env : Env α)
+    (heps : 0 ≤ env.eps) (hc : env.collective = true) (inside : Bool)
+    (hd : dtWithinCoreStandingTime env.now env.cst = .ok inside)
+    (w w' : SWorld α B) (st st' : CState α) (cmds : List (String × α)) (g0 : GcS α)
+    (hg : w.gcs = [g0])
+    (h0 : ∀ g ∈ w.gcs, -g.curMax ≤ g.currentLoad ∧ g.currentLoad ≤ g.curMax)
+    (h : step ops env w st = .ok (w', st', cmds)) :
+    ∀ g ∈ w'.gcs, -g.curMax ≤ g.currentLoad ∧ g.currentLoad ≤ g.curMax := by
+  cases inside with
+  | true => exact step_collective_core_full ops law env heps hc hd w w' st st' cmds g0 hg h0 h
+  | false => exact step_collective_outside_within ops law env heps hc hd w w' st st' cmds h0 h
+
+/-- **Former witness of mechanism (C), now within the limit.**  Net load −8 kW (6 kW fixed load, 14 kW
+generation) on the 10 kW connector, target 5 kW, a discharge window, a V2G-capable vehicle above its
+desired SoC: before SCH4 the V2G pass discharged 4 kW (`|target − load| = 13 kW` allowed) and the
+connector ended at −12 kW; the repaired pass discharges the 2 kW of feed-in headroom and the connector
+ends at −10 kW (below its −8 kW base load, so the pass did discharge). -/
+example :
+    (∀ g ∈ exWorldFeed.gcs, -g.curMax ≤ g.currentLoad ∧ g.currentLoad ≤ g.curMax) ∧
+    (match step toyOps (exEnvC 5) exWorldFeed exStateFeed with
+     | .ok r => r.1.gcs.all (fun g => decide (-g.curMax ≤ g.currentLoad ∧ g.currentLoad < -g.curMax + 1/100))
+     | .error _ => false) = true := by
+  refine ⟨?_, by decide +kernel⟩
+  intro g hg
+  simp only [exWorldFeed, List.mem_singleton] at hg
+  subst hg
+  simp only [GcS.currentLoad, List.foldl]
+  norm_num
 
 /-- Non-vacuity with a V2G vehicle: target 6 kW, a V2G-capable vehicle above its desired SoC in a
 charge window; the V2G pass runs (the vehicle is charged towards the target) and the connector ends
